@@ -19,14 +19,10 @@ ASSUMPTIONS = ["all text (names, symbols, doc, attribute keys and string values)
                "modelled configuration of parse_schema: expand=False, _force=False, _ignore_default_error=False",
                "UnknownType raised with the schema dict as its name is compared as unknown:<dict>",
                "fixed sizes stay below 2000 (the exact max_precision scan of the model is linear in the size)"]
-PARTIAL = ["C11_accepts_partial: acceptance is proved for every schema satisfying valid_strict = the specification's "
-           "well-formedness (valid_raw) plus one demand: the default of a field whose type is a DICT-form float/double is "
-           "a float literal; the full statement (valid_raw) is false of the code exactly there "
-           "(C11_accepts_refuted_dict_float_int_default); the theorem is existential in the fuel",
+PARTIAL = ["C11_accepts is existential in the fuel (no fuel-adequacy lemma for the fuel the harness uses; the harness "
+           "never sees 'fuel')",
            "C11_rejects_*: the exact error kind is proved at the offending node; at any depth the theorems say 'never "
-           "accepted' (an earlier error of another kind may surface first)",
-           "C11_rejects_duplicate_name_any_depth holds within one _parse_schema call; across the members of a top-level "
-           "union it is false of the code (C11_refuted_toplevel_union_dup, defect F5)"]
+           "accepted' (an earlier error of another kind may surface first)"]
 
 IMPORTS = ("From Coq Require Import String.\n"
            "From FA Require Import model.Base model.Json model.Parse model.SchemaSpec model.Canon.\n")
@@ -62,6 +58,29 @@ def unhex(h):
     return None if h is None else bytes.fromhex(h).decode("latin-1")
 
 
+MARKERS = ("__fastavro_parsed", "__named_schemas")
+
+
+def conv_parsed(x):
+    """the implementation's parsed schema as plain JSON: markers removed, floats by bit pattern"""
+    import struct
+    if isinstance(x, float):
+        return {"$f": struct.unpack("<Q", struct.pack("<d", x))[0]}
+    if isinstance(x, dict):
+        return {k: conv_parsed(v) for k, v in x.items() if k not in MARKERS}
+    if isinstance(x, (list, tuple)):
+        return [conv_parsed(v) for v in x]
+    return x
+
+
+def impl_parsed(schema):
+    from fastavro.schema import parse_schema
+    try:
+        return conv_parsed(core.with_timeout(lambda: parse_schema(copy.deepcopy(schema), {}), 10))
+    except Exception:
+        return None
+
+
 def norm_model(m):
     if m is not None and m.startswith("ok:"):
         body, _, names = m.rpartition("|")
@@ -80,21 +99,21 @@ def accepted_mutation_signature(mut, schema):
         return "C11:parse_schema:top-level-union:duplicate-name-accepted"
     if k == "default-wrong-type":
         d, t = mut["default"], mut["field_type"]
-        def members(t):
-            return t if isinstance(t, list) else [t]
-        ms = members(t)
+        ms = t if isinstance(t, list) else [t]
         names = [m if isinstance(m, str) else m.get("type") for m in ms]
-        if isinstance(d, bool) and any(m in ("int", "long", "float", "double") for m in ms if isinstance(m, str)):
+        if isinstance(d, bool) and any(n in ("int", "long", "float", "double") for n in names if isinstance(n, str)):
             return "C11:parse_schema:default-check:bool-for-number:wrong-json-type-accepted"
-        if isinstance(d, str) and any(m in ("float", "double") for m in ms if isinstance(m, str)):
+        if isinstance(d, str) and any(n in ("float", "double") for n in names if isinstance(n, str)):
             return "C11:parse_schema:default-check:numeric-string-for-float:wrong-json-type-accepted"
         if isinstance(t, list) and any(isinstance(m, dict) or (isinstance(m, str) and m not in sg.PRIMS) for m in ms):
             return "C11:parse_schema:default-check:union-with-complex-or-named-branch:wrong-json-type-accepted"
         if isinstance(t, str) and t not in sg.PRIMS:
             return "C11:parse_schema:default-check:named-reference:wrong-json-type-accepted"
-        if isinstance(d, bool) and isinstance(t, dict) and t.get("type") in ("int", "long"):
-            return "C11:parse_schema:default-check:bool-for-number:wrong-json-type-accepted"
         return "C11:parse_schema:default-check:other:wrong-json-type-accepted"
+    if k == "decimal-precision-falsy-non-integer":
+        return "C11:parse_schema:decimal-precision:falsy-or-bool-non-integer-accepted"
+    if k == "decimal-scale-falsy-non-integer":
+        return "C11:parse_schema:decimal-scale:falsy-or-bool-non-integer-accepted"
     return "C11:parse_schema:%s:accepted" % k
 
 
@@ -160,7 +179,7 @@ def run(ctx):
     ]
     for c in corner:
         cases.append((c, dict(kind="corner")))
-    # witnesses of the defects found so far: re-run on every run so that each is reported (or seen fixed) deterministically
+    # witnesses of the defects found so far (fixed ones stay as regression cases; the numeric-string one is a known finding)
     cases.append(([{"type": "record", "name": "A", "fields": []}, {"type": "fixed", "name": "A", "size": 1}],
                   dict(kind="duplicate-name", path=[1], name="A", across_top_level_union_members=True)))
     cases.append(({"type": "record", "name": "R", "fields": [{"name": "f", "type": ["null", {"type": "array", "items": "int"}], "default": 5}]},
@@ -173,31 +192,37 @@ def run(ctx):
     cases.append(({"type": "record", "name": "R", "fields": [{"name": "f", "type": ["null", "double"], "default": "1.5"}]},
                   dict(kind="default-wrong-type", path=["fields", 0], field_type=["null", "double"], default="1.5")))
     cases.append(({"type": "record", "name": "R", "fields": [{"name": "f", "type": {"type": "double"}, "default": 1}]}, None))
+    cases.append(({"type": "bytes", "logicalType": "decimal", "precision": ""},
+                  dict(kind="decimal-precision-falsy-non-integer", path=[], node={"type": "bytes", "precision": ""})))
+    cases.append(({"type": "bytes", "logicalType": "decimal", "precision": 4, "scale": True},
+                  dict(kind="decimal-scale-falsy-non-integer", path=[], node={"type": "bytes", "precision": 4, "scale": True})))
 
     exprs = []
     for s, mut in cases:
         t = sg.to_coq(s)
         exprs.append("show_parse " + t)
         exprs.append("show_valid " + t)
-        exprs.append("show_valid_strict " + t)
+        exprs.append("show_parsed " + t)
     out = core.coq_eval(exprs, IMPORTS, ctx.workdir, tag="parse", shard=200 if ctx.quick() else 400)
     nvalid_rejected = 0
-    nstrict = 0
     for i, (s, mut) in enumerate(cases):
         m = norm_model(unhex(out[3 * i]))
         mvalid = out[3 * i + 1]
-        mstrict = out[3 * i + 2]
-        # C11_accepts_partial on this case: valid_strict => accepted (by the model, hence - corr:parse - by the code);
-        # valid_strict is a sub-class of valid_raw
-        if mstrict == "true":
-            nstrict += 1
-            ctx.count("thm:accepts_partial-instance", None, nontrivial=False)
-            if mvalid != "true" or not (m or "").startswith("ok:"):
-                ctx.violation("thm:accepts_partial-instance", case(s, mutation=mut), impl=None, model=[mvalid, mstrict, m],
-                              signature="C11:harness:valid_strict-instance-not-accepted-by-model", found_input=False)
+        mparsed = unhex(out[3 * i + 2])
         r = impl_parse(s)
         key = json.dumps(s, sort_keys=True, default=str)
         ctx.count("corr:parse", key)
+        if r == m and r.startswith("ok:"):
+            # the parsed schema itself, key by key (attribute order ignored, markers removed)
+            ctx.count("corr:parsed-output", key)
+            try:
+                mp = json.loads(mparsed[3:])
+            except Exception as e:
+                mp = "unreadable: %s" % e
+            ip = impl_parsed(s)
+            if ip != mp:
+                ctx.violation("corr:parsed-output", case(s, mutation=mut), impl=ip, model=mp,
+                              signature="C11:parse_schema:parsed-output-differs-from-model", found_input=False)
         if r != m:
             # does the implementation violate the statement on this input?
             if mut is None:
@@ -230,7 +255,6 @@ def run(ctx):
     ctx.notes["generator"] = stats
     ctx.notes["mutations"] = mstats
     ctx.notes["valid_schemas_rejected_by_implementation"] = nvalid_rejected
-    ctx.notes["cases_in_valid_strict"] = nstrict
     if nvalid_rejected * 10 > nvalid * 3:
         raise RuntimeError("generator broken: %d of %d valid schemas rejected" % (nvalid_rejected, nvalid))
 
